@@ -46,7 +46,9 @@ SELFTEST_N = 3
 
 MB = [("linear", "None"), ("cspline", "None"), ("cspline", "not-a-knot"), ("cspline", "natural"),
       ("cspline", "clamped"), ("cspline", "periodic")]
-EXTRAPS = ["None", "nan", "const", "tensor0d", "callable", "bound", "mirror", "periodic"]
+# zero_int / zero_float / zero_tensor: the constants 0, 0.0 and tensor(0.) (falsy values are legal constants)
+EXTRAPS = ["None", "nan", "const", "tensor0d", "callable", "bound", "mirror", "periodic", "zero_int", "zero_float",
+           "zero_tensor"]
 ORDERS = ["sorted_assume", "sorted", "reversed", "shuffled"]
 YATS = ["init", "call", "both"]
 YBATCH = {"0d": (), "2": (2,), "2x3": (2, 3)}
@@ -190,6 +192,8 @@ def reference(xs, method, bc, basis, mode, xq, nu=0, free=None):
             off[outside] = CONST_VAL if nu == 0 else 0.0
         elif mode == "tensor0d":
             off[outside] = TENSOR_VAL if nu == 0 else 0.0
+        elif mode in ("zero_int", "zero_float", "zero_tensor"):
+            off[outside] = 0.0
         elif mode == "callable":
             off[outside] = _extrap_fn(xq[outside]) if nu == 0 else 2.0
         else:
@@ -316,6 +320,12 @@ def run_case(cfg):
         ex_arg = CONST_VAL
     elif extrap == "tensor0d":
         ex_arg = torch.tensor(TENSOR_VAL, dtype=dtype)
+    elif extrap == "zero_int":
+        ex_arg = 0
+    elif extrap == "zero_float":
+        ex_arg = 0.0
+    elif extrap == "zero_tensor":
+        ex_arg = torch.tensor(0.0, dtype=dtype)
     elif extrap == "callable":
         ex_arg = _extrap_fn
     else:
